@@ -44,6 +44,7 @@ func init() {
 			{World: "pay", Quick: b(1, 1, 2), Thorough: b(2, 2, 3), MenuFilter: noReplay},
 			{World: "coin", Quick: b(1, 1, 2), Thorough: b(2, 2, 2), OneEnv: true},
 			{World: "book", Quick: b(1, 1, 2), Thorough: b(2, 2, 2), OneEnv: true},
+			{World: "booktiny", Quick: b(2, 2, 1), Thorough: b(3, 2, 2), OneEnv: true},
 			{World: "pool", Quick: b(1, 1, 1), Thorough: b(2, 2, 2), OneEnv: true},
 			{World: "stake", Quick: b(1, 1, 2), Thorough: b(2, 2, 2), OneEnv: true},
 			{World: "valbyz", Quick: b(0, 0, 2), Thorough: b(0, 0, 3)},
